@@ -157,11 +157,19 @@ fn main() {
                 .spawn(move || {
                     use redirectionio::api::BodyFilter;
                     use redirectionio::filter::FilterBodyAction;
-                    let open = if variant == 0 { ":not(" } else { ":is(" };
-                    let selector = format!("{}p{}", open.repeat(len), ")".repeat(len));
+                    // variants 0 / 1: nesting (the selector parser recurses once per level); variants 2 / 3: a chain of <len> sibling /
+                    // descendant combinators over a body that matches it link by link (selector matching recurses once per combinator)
+                    let (selector, inner) = match variant {
+                        0 | 1 => {
+                            let open = if variant == 0 { ":not(" } else { ":is(" };
+                            (format!("{}p{}", open.repeat(len), ")".repeat(len)), "<div>x</div>".to_string())
+                        }
+                        2 => (format!("{}b", "i+".repeat(len)), format!("{}<b>x</b>", "<i></i>".repeat(len))),
+                        _ => (format!("{}b", "div ".repeat(len)), format!("{}<b>x</b>{}", "<div>".repeat(len), "</div>".repeat(len))),
+                    };
                     let f: BodyFilter = serde_json::from_value(serde_json::json!({"action": "append_child", "value": "<i>x</i>", "inner_value": null, "element_tree": ["html", "body"], "css_selector": selector, "id": null, "target_hash": null})).unwrap();
                     let mut fb = FilterBodyAction::new(vec![f], &[]);
-                    let mut out = fb.filter(b"<html><body><div>x</div></body></html>".to_vec(), None);
+                    let mut out = fb.filter(format!("<html><body>{inner}</body></html>").into_bytes(), None);
                     out.extend(fb.end(None));
                     std::hint::black_box(out);
                 })
